@@ -25,6 +25,7 @@ LIB_OK = {
     "np.load", "load_npz", "json.loads", "np.ndarray", "np.array", "np.ma.MaskedArray", "partial", "slice",
     "defaultdict", "bytearray", "list", "tuple", "enumerate", "zip", "isinstance", "issubclass", "hasattr", "len",
     "type", "get_module", "TypeError", "ValueError", "UnsupportedTypeException", "dict", "set", "str",
+    "np.empty", "np.ndindex", "range",
 }
 INIT_OK = {"get_module", "id", "isinstance", "len", "io.BytesIO", "get_type_paths"}
 RESOLVERS = {"gettype", "_import_obj"}
@@ -660,14 +661,33 @@ class ConstructUses:
         if f in ("zip", "enumerate"):
             return ("zip", [self.sym(a) for a in e.args])
         if f.startswith("self.") and isinstance(e.func.value, ast.Name) and hasattr(self.cls, e.func.attr):
-            for a in e.args:
-                self.sym(a)
-            bad = self.scan_helper(getattr(self.cls, e.func.attr))
-            if bad:
-                self.uses.append(dict(u="unknown", src=f"helper {f}: {bad}"))
-            else:
+            args = [self.sym(a) for a in e.args]
+            helper = getattr(self.cls, e.func.attr)
+            bad = self.scan_helper(helper)
+            if not bad:
                 self.uses.append(dict(u="lib", name=f))
-            return ("lib", f)
+                return ("lib", f)
+            # a helper that calls something else: execute it symbolically with the arguments bound to the
+            # caller's symbolic values (one level only; a helper that calls further helpers stays unknown)
+            try:
+                tree = src_of(helper)
+                params = [a.arg for a in tree.args.args]
+                if params and params[0] in ("self", "cls") and not isinstance(inspect.getattr_static(self.cls, e.func.attr), staticmethod):
+                    params = params[1:]
+                if len(params) != len(args) or getattr(self, "_inlining", False):
+                    raise ValueError("arity / nested helper")
+                saved_env = self.env
+                self.env = dict(zip(params, args))
+                self._inlining = True
+                try:
+                    self.block(tree.body)
+                finally:
+                    self.env = saved_env
+                    self._inlining = False
+                return ("other", "helper result")
+            except Exception:
+                self.uses.append(dict(u="unknown", src=f"helper {f}: {bad}"))
+                return ("lib", f)
         callee = self.sym(e.func)
         for a in e.args:
             self.sym(a)
